@@ -1,7 +1,7 @@
 #!/bin/bash
 # tools/try_seed.sh C10 1 [tier] : confirm a seeded change (demo passes on /repo, fails with the patch, suite still green)
 # and run the property's check against a scratch copy with the patch applied.
-P=$1; K=$2; TIER=${3:-quick}; S=/tmp/seed_$P/out; D=/tmp/try_${P}_$K
+P=$1; K=$2; TIER=${3:-quick}; R=${ROUND:-1}; if [ "$R" = "1" ]; then S=/tmp/seed_$P/out; else S=/tmp/seed${R}_$P/out; fi; D=/tmp/try_${P}_${R}_$K
 rm -rf $D; mkdir -p $D; rsync -a --exclude .git /repo/ $D/repo/
 ( cd $D/repo && patch -p1 -s < $S/patch$K.diff ) || { echo "PATCH-FAILED"; exit 3; }
 ( cd /repo && /venv/bin/python $S/demo$K.py >/dev/null 2>&1 ); echo "demo on /repo: exit $?"
